@@ -39,6 +39,10 @@ CallStep(st, fr) ==
          THEN Push([newprobe(0) EXCEPT !.nodes[n].g = TRUE], <<Sub(nd.c, pn), F0("dropv")>>)
          ELSE IF nd.b = 3 /\ t = "N"                \* reaction 3: on every item subscribe a fresh probe to the same pipeline
          THEN Push(newprobe(0), <<Sub(nd.c, pn), F0("dropv")>>)
+         ELSE IF nd.b = 4 /\ t = "N"                \* reaction 4: peek() the BehaviorSubject from inside the callback, record what it says
+         THEN LET vn == VNode(st1, PA(nd.c)) IN
+              IF RHeld(st1.nodes[vn]) THEN Fault(st1, "reentry")
+              ELSE [st1 EXCEPT !.log = Append(@, LogEntry(nd.a, "P", st1.nodes[vn].v, st.now))]
          ELSE st1
     [] k \in UnaryKinds ->
          IF nd.dead THEN Fault(st, "spec:call-after-move")
@@ -52,7 +56,7 @@ CallStep(st, fr) ==
          ELSE IF t = "E" THEN Push(st, <<CallE(d, v)>>) ELSE st
     [] k = "wlfA" ->
          IF t = "N" THEN
-           IF st.nodes[nd.c].h # 0 THEN Fault(st, "reentry")
+           IF RHeld(st.nodes[nd.c]) THEN Fault(st, "reentry")
            ELSE IF IsSome(st.nodes[nd.c].v) THEN Push(st, <<CallN(d, P(v, Unwrap(st.nodes[nd.c].v)))>>)
            ELSE st
          ELSE Push(st, <<Call(d, t, v)>>)
@@ -308,9 +312,13 @@ Step(st) ==
   IN
   CASE f = "call" -> CallStep(s0, fr)
     [] f = "acq" ->
-         IF s0.nodes[fr.n].h # 0 THEN Fault(s0, "reentry")
+         IF WHeld(s0.nodes[fr.n]) THEN Fault(s0, "reentry")
          ELSE [s0 EXCEPT !.nodes[fr.n].h = 1]
     [] f = "rel" -> [s0 EXCEPT !.nodes[fr.n].h = 0]
+    [] f = "acqr" ->
+         IF RHeld(s0.nodes[fr.n]) THEN Fault(s0, "reentry")
+         ELSE [s0 EXCEPT !.nodes[fr.n].r = @ + 1]
+    [] f = "relr" -> [s0 EXCEPT !.nodes[fr.n].r = @ - 1]
     [] f = "body" -> CellBody(s0, fr.n, fr.t, fr.v)
     [] f = "bump" -> [s0 EXCEPT !.cnt[fr.x] = @ + 1]
     [] f = "sub" -> SubStep(s0, fr)
@@ -414,7 +422,7 @@ WithShared(st, x, hi) ==
        WithShared([AddNode(st1, [Node("sharecell", 0) EXCEPT !.n = Len(st1.subj), !.g = TRUE]) EXCEPT !.shared[x] = NextNode(st1)], x + 1, hi)
   ELSE WithShared(st, x + 1, hi)
 
-InitMachine(arc, nSubj, nBeh, nHotC, lo, hi) ==
+InitMachine(arc, nSubj, nBeh, nHotC, lo, hi) ==   \* arc: the thread-safe form (every cell an Arc<Mutex>)
   LET s0 == [St0 EXCEPT !.arc = arc, !.hots = [i \in 1..nHotC |-> <<>>], !.shared = [x \in 1..Len(Prog) |-> 0]] IN
   WithShared(WithSubjects(WithSubjects(s0, nSubj, FALSE), nBeh, TRUE), lo, hi)
 =============================================================================
